@@ -80,3 +80,12 @@ pub fn tpl_first_quasi(e: &Expr) -> Option<&str> {
         _ => None,
     }
 }
+
+// R16.12: a first-wins combinator over the constituents of an intersection
+pub mod resolve_type {
+    use swc_core::ecma::ast::*;
+    pub fn first_constituent(t: &TsIntersectionType) -> Option<&TsType> {
+        let TsIntersectionType { types, .. } = t;
+        types.iter().find_map(|ty| Some(&**ty))
+    }
+}
